@@ -3,6 +3,7 @@ package main
 // C09 / C10 workloads: file-backed databases with clean shutdowns, crash-style stops and reopens.
 
 import (
+	"encoding/json"
 	"fmt"
 	"math/rand"
 	"os"
@@ -156,6 +157,110 @@ func sqlC09(args []string) error {
 			}
 			work(1 + rng.Intn(6))
 			readAll()
+		}
+		s.closeFiles()
+	}
+	return tw.Close()
+}
+
+// sql c10walk <walks.json> <out.ndjson> <scratch dir>: restart histories computed from the state graph of
+// spec/Catalog (every edge taken by some history): Create(name, kind) / Write(oid) / Shutdown / Crash / Reopen.
+// A table has one indexed integer column (kind from the label) and a payload column; after every reopen every
+// table is read by name through the heap, through the planner and through its index.
+func sqlC10Walk(args []string) error {
+	raw, err := os.ReadFile(args[0])
+	if err != nil {
+		return err
+	}
+	var walks [][][]interface{}
+	if err := json.Unmarshal(raw, &walks); err != nil {
+		return err
+	}
+	tw, err := trace.New(args[1])
+	if err != nil {
+		return err
+	}
+	dir := args[2]
+	os.MkdirAll(dir, 0o755)
+	rng := rand.New(rand.NewSource(envSeed()))
+	kindName := map[string]string{"skip": "skiplist", "btree": "btree", "none": "none"}
+	for wi, w := range walks {
+		s, err := newFileRun(tw, "C10", dir, 512)
+		if err != nil {
+			return err
+		}
+		tables := []*tableDef{}
+		readAll := func() {
+			for _, t := range tables {
+				s.scan(t)
+				s.selectQ(t, atom(0, ">=", 0), nil, false)
+				s.idxPoint(t, 0, rng.Intn(NRanks-1))
+				s.idxRange(t, 0, -2, -2)
+			}
+		}
+		for _, st := range w {
+			if s.dead {
+				break
+			}
+			switch st[0].(string) {
+			case "Create":
+				t := &tableDef{name: fmt.Sprintf("w%d_%s", wi, st[1].(string)), cols: []string{"int", "varchar"}, names: []string{"c0", "c1"},
+					kinds: []string{kindName[st[2].(string)], "none"}}
+				s.createAPI(t)
+				tables = append(tables, t)
+			case "Write":
+				o := 0
+				switch v := st[1].(type) {
+				case float64:
+					o = int(v)
+				case string:
+					o, _ = strconv.Atoi(v)
+				}
+				if o >= 1 && o <= len(tables) {
+					s.insert(tables[o-1], [][]int{{rng.Intn(NRanks - 1), rng.Intn(NRanks - 1)}}, nil)
+				}
+			case "Shutdown", "Crash":
+				clean := st[0].(string) == "Shutdown"
+				wev := map[string]interface{}{"ev": "Reopen"}
+				wd := s.watch(wev)
+				var pm string
+				if clean {
+					pm = s.e.Shutdown()
+					s.emitRes("Shutdown", pm)
+				} else {
+					pm = s.e.Crash()
+					s.emitRes("Crash", pm)
+				}
+				wd.Stop()
+				if pm != "" {
+					s.dead = true
+				}
+				s.down = true
+			case "Reopen":
+				if !s.down {
+					break
+				}
+				wev := map[string]interface{}{"ev": "Reopen"}
+				wd := s.watch(wev)
+				e, pm := eng.Open(s.e.Name, s.e.MemKB, true)
+				wd.Stop()
+				if e == nil {
+					s.emitRes("Reopen", pm)
+					s.dead = true
+					break
+				}
+				s.e = e
+				s.down = false
+				s.emitRes("Reopen", "")
+				readAll()
+			}
+		}
+		if s.down && !s.dead { // a history may end with the database stopped
+			if e, _ := eng.Open(s.e.Name, s.e.MemKB, true); e != nil {
+				s.e = e
+			} else {
+				s.dead = true
+			}
 		}
 		s.closeFiles()
 	}
